@@ -81,6 +81,8 @@ def adapt_predicates(c, ri):
         rest = L[k:]
         want = (max(rest) if rest else [-2]) + [max(len(rest) - 1, 0)]
     elif kind == 6:
+        if len(log) < 2:
+            return ["indexes().size_hint() followed by the enumeration gave the truncated log %s" % log]
         lo, hi = log[0], log[1]
         if lo > len(L) or (hi != -1 and hi < len(L)):
             return ["indexes().size_hint() = (%d, %s) excludes the actual length %d" % (lo, hi, len(L))]
